@@ -52,7 +52,7 @@ func vfH_C16_Reopen() {
 	vfSet("loop", 64)
 	t := NewTree("vf")
 	m := &vfTreeModel{}
-	var last uint64
+	var last, lastV uint64
 	for i := 0; i < prefix; i++ {
 		k, v := vfTreeKV("p")
 		if i > 0 {
@@ -61,12 +61,29 @@ func vfH_C16_Reopen() {
 			} else {
 				vfAssume(k < last)
 			}
+			if vfParam("sortedvals", 0) == 1 {
+				vfAssume(v > lastV)
+			}
 		}
-		last = k
+		last, lastV = k, v
 		t.Set(k, v)
 		m.set(k, v)
 	}
 	vfBegin()
+	if vfParam("prescript", 0) == 1 {
+		// recycle pages, then reuse them before the reopen
+		ts := vfU64("pts")
+		t.DeleteBelow(ts)
+		m.deleteBelow(ts)
+		var prev uint64
+		for i := 0; i < vfParam("presets", 3); i++ {
+			k, v := vfTreeKV("q")
+			vfAssume(k > prev)
+			prev = k
+			t.Set(k, v)
+			m.set(k, v)
+		}
+	}
 	vfTreeOps(t, m, vfParam("ops", 1), vfParam("menu", 3), "a")
 	rem := [3]int{0, 1, ps - 1}[vfChoice(3)]
 	t2 := vfReopen(t, rem)
